@@ -107,6 +107,16 @@ func OkDiscipline(r *Run, fn *ssa.Function) int {
 					CalleeName(vc.Call), FuncName(fn), r.P.Pos(ret.Pos()), rv.String())
 			}
 		}
+		// the data produced by a failed sub-match must not be used, except as
+		// the data of a false return: bindings made during a failed attempt
+		// never influence another attempt.
+		for _, ex := range dataResults(vc.Call) {
+			if use := usedAfterFailure(ex, reach, skip, map[ssa.Value]bool{}); use != nil {
+				bad = true
+				r.Fail(key+"|failed-data", use.Pos(), "the data returned by a FAILED %s (bindings of the failed attempt) flows into %s in %s: a failed attempt influences a later one",
+					CalleeName(vc.Call), use.String(), FuncName(fn))
+			}
+		}
 		if !bad {
 			r.Pass(key, vc.Call.Pos(), "every return reachable after a false verdict of %s returns false or that verdict (%d branch(es) on it)", CalleeName(vc.Call), len(brs))
 		}
@@ -153,4 +163,87 @@ func verdictImplied(rv, v ssa.Value, reach map[*ssa.BasicBlock]bool, seen map[ss
 		return true
 	}
 	return false
+}
+
+// dataResults returns the data.Data results extracted from a verdict call.
+func dataResults(c *ssa.Call) []*ssa.Extract {
+	var out []*ssa.Extract
+	if refs := c.Referrers(); refs != nil {
+		for _, x := range *refs {
+			if e, ok := x.(*ssa.Extract); ok && IsNamed(e.Type(), dataPkg, "Data") {
+				out = append(out, e)
+			}
+		}
+	}
+	return out
+}
+
+// usedAfterFailure returns an instruction, inside the region reachable after
+// the sub-match failed, that consumes v other than by returning it.
+func usedAfterFailure(v ssa.Value, reach map[*ssa.BasicBlock]bool, skip func(*ssa.BasicBlock, int) bool, seen map[ssa.Value]bool) ssa.Instruction {
+	if seen[v] {
+		return nil
+	}
+	seen[v] = true
+	refs := v.Referrers()
+	if refs == nil {
+		return nil
+	}
+	for _, u := range *refs {
+		switch x := u.(type) {
+		case *ssa.DebugRef, *ssa.Return:
+			continue
+		case *ssa.Phi:
+			for i, e := range x.Edges {
+				if e != v {
+					continue
+				}
+				pred := x.Block().Preds[i]
+				if !reach[pred] {
+					continue
+				}
+				taken := false
+				for si, s := range pred.Succs {
+					if s == x.Block() && !skip(pred, si) {
+						taken = true
+					}
+				}
+				if !taken {
+					continue
+				}
+				if use := usedAfterFailure(x, reach, skip, seen); use != nil {
+					return use
+				}
+			}
+		case *ssa.Store:
+			// a spill into a local cell (captured / address-taken variable) is
+			// not a use; the loads of the cell inside the failure region are
+			al, isLocal := x.Addr.(*ssa.Alloc)
+			if x.Val != v || !isLocal {
+				if reach[u.Block()] {
+					return u
+				}
+				continue
+			}
+			if lrefs := al.Referrers(); lrefs != nil {
+				for _, lu := range *lrefs {
+					ld, isLoad := lu.(*ssa.UnOp)
+					if !isLoad || !reach[ld.Block()] {
+						continue
+					}
+					if ld.Block() == x.Block() && InstrBlockIndex(ld) < InstrBlockIndex(x) {
+						continue
+					}
+					if use := usedAfterFailure(ld, reach, skip, seen); use != nil {
+						return use
+					}
+				}
+			}
+		default:
+			if reach[u.Block()] {
+				return u
+			}
+		}
+	}
+	return nil
 }
